@@ -165,6 +165,9 @@ func HostRuleConfLoad(filename string) (HostConf, error) {
 
 	for product, hostTagList := range *config.HostTags {
 		for _, hostTag := range *hostTagList {
+			if p, ok := hostTag2Product[hostTag]; ok && p != product {
+				return conf, fmt.Errorf("hostTag duplicate for %s", hostTag)
+			}
 			hostTag2Product[hostTag] = product
 		}
 	}
